@@ -249,7 +249,7 @@ class Conn:
         rng = self.rng
         offered = s["offered"] or [self.suite, 0x1302 if self.suite != 0x1302 else 0x1301]
         ch = client_hello(rng, self.client_random, offered, s["grease"])
-        sh = server_hello(rng, self.server_random, self.suite)
+        sh = server_hello(rng, self.server_random, s.get("wire_suite") or self.suite)
         sf = server_flight(rng, self.hl)
         cfin = hs_msg(20, rng.randbytes(self.hl))
         ack = qf.ack(largest=0, delay=1, first=0)[0]
